@@ -486,6 +486,7 @@ func (c *C05AllMasks) Run() string {
 		}
 		for _, rev := range []bool{false, true} {
 			resetLib()
+			rec.Eval()
 			sub := &C05Mask{Shape: c.Shape, Mask: mask, Root: c.Root, Rev: rev}
 			if msg := sub.Run(); msg != "" && msg != inconclusive {
 				return msg
